@@ -1,3 +1,264 @@
 package main
 
-func (g *gen) stream4(name string, n int) bool { return false }
+import (
+	"encoding/binary"
+	"fmt"
+	"strings"
+)
+
+func (g *gen) stream4(name string, n int) bool {
+	switch name {
+	case "attrs-valid":
+		g.attrsValid(n)
+	case "attrs-malformed":
+		g.attrsMalformed(n)
+	default:
+		return g.stream5(name, n)
+	}
+	return true
+}
+
+// independent RFC 5389 section 15 encoders (no library code)
+func rfcMapped(ip []byte, port int) []byte {
+	fam := byte(1)
+	if len(ip) == 16 {
+		fam = 2
+	}
+	v := []byte{0, fam, byte(port >> 8), byte(port)}
+	return append(v, ip...)
+}
+
+func rfcXor(ip []byte, port int, tid []byte) []byte {
+	v := rfcMapped(ip, port)
+	key := append([]byte{0x21, 0x12, 0xA4, 0x42}, tid...)
+	v[2] ^= 0x21
+	v[3] ^= 0x12
+	for i := range ip {
+		v[4+i] ^= key[i]
+	}
+	return v
+}
+
+func rfcErrorCode(code int, reason []byte) []byte {
+	return append([]byte{0, 0, byte(code / 100), byte(code % 100)}, reason...)
+}
+
+func rfcUnknown(ts []int) []byte {
+	v := make([]byte, 2*len(ts))
+	for i, t := range ts {
+		binary.BigEndian.PutUint16(v[2*i:], uint16(t))
+	}
+	return v
+}
+
+func (g *gen) validIP() []byte {
+	switch g.r.intn(5) {
+	case 0, 1:
+		return g.r.bytes(4)
+	case 2, 3:
+		b := g.r.bytes(16)
+		if b[10] == 0xff && b[11] == 0xff {
+			b[0] |= 1
+		}
+		return b
+	default:
+		b := make([]byte, 16)
+		b[10], b[11] = 0xff, 0xff
+		copy(b[12:], g.r.bytes(4))
+		return b
+	}
+}
+
+// C06: every typed attribute, valid values: library encode -> re-decode -> library getter (= model getter), and
+// independent RFC encoding -> library getter
+func (g *gen) attrsValid(n int) {
+	for i := 0; i < n; i++ {
+		g.caseMark("attrs-valid", i)
+		tid := g.r.bytes(12)
+		g.emit("NEW 0 %d %d", g.r.intn(600), g.r.intn(256))
+		pre := ""
+		if g.r.chance(1, 2) { // some unrelated content before
+			pre = fmt.Sprintf("+raw:%d:%s", 0x7777, showHex(g.r.bytes(g.r.intn(9))))
+		}
+		hdr := fmt.Sprintf("type:%d:%d+tid:%s%s", g.r.intn(4096), g.r.intn(4), showHex(tid), pre)
+		var set, get, rfc string
+		switch k := i % 9; k {
+		case 0, 1:
+			ip, port := g.validIP(), g.port()
+			at := g.r.pick([]int{0x0020, 0x0012, 0x0016})
+			set = fmt.Sprintf("xor:%d:%s:%d", at, showHex(ip), port)
+			get = fmt.Sprintf("xor %d", at)
+			if len(ip) == 16 && ip[10] == 0xff && ip[11] == 0xff && allZero(ip[:10]) {
+				ip = ip[12:]
+			}
+			rfc = fmt.Sprintf("raw:%d:%s", at, showHex(rfcXor(ip, port, tid)))
+		case 2, 3:
+			ip, port := g.validIP(), g.port()
+			at := g.r.pick([]int{0x0001, 0x8023, 0x802b, 0x802c})
+			set = fmt.Sprintf("map:%d:%s:%d", at, showHex(ip), port)
+			get = fmt.Sprintf("map %d", at)
+			if len(ip) == 16 && ip[10] == 0xff && ip[11] == 0xff && allZero(ip[:10]) {
+				ip = ip[12:]
+			}
+			rfc = fmt.Sprintf("raw:%d:%s", at, showHex(rfcMapped(ip, port)))
+		case 4, 5:
+			kinds := []string{"user", "realm", "nonce", "soft"}
+			types := []int{0x0006, 0x0014, 0x0015, 0x8022}
+			limits := []int{513, 763, 763, 763}
+			j := g.r.intn(4)
+			l := g.r.intn(limits[j] + 1)
+			if g.r.chance(1, 4) {
+				l = limits[j] - g.r.intn(3)
+			}
+			v := g.r.bytes(l)
+			set = kinds[j] + ":" + showHex(v)
+			get = kinds[j]
+			rfc = fmt.Sprintf("raw:%d:%s", types[j], showHex(v))
+		case 6, 7:
+			code := 300 + g.r.intn(400)
+			reason := g.r.bytes(g.r.intn(128))
+			if g.r.chance(1, 6) {
+				reason = g.r.bytes(763 - g.r.intn(2))
+			}
+			set = fmt.Sprintf("ec:%d:%s", code, showHex(reason))
+			if g.r.chance(1, 4) {
+				code = g.r.pick(ecCodes)
+				set = fmt.Sprintf("ecd:%d", code)
+				reason = nil
+			}
+			get = "ec"
+			if reason != nil {
+				rfc = fmt.Sprintf("raw:9:%s", showHex(rfcErrorCode(code, reason)))
+			}
+		default:
+			nn := g.r.intn(65)
+			ts := make([]int, nn)
+			parts := make([]string, nn)
+			for j := range ts {
+				ts[j] = g.r.intn(65536)
+				parts[j] = fmt.Sprint(ts[j])
+			}
+			set = "ua:" + strings.Join(parts, ",")
+			if nn == 0 {
+				set = "ua:-"
+			}
+			get = "ua"
+			rfc = fmt.Sprintf("raw:10:%s", showHex(rfcUnknown(ts)))
+		}
+		// library encoder -> wire -> library decoder -> library getter
+		g.emit("BUILD 0 %s+%s", hdr, set)
+		g.emit("GETX 0 %s", get)
+		g.emit("CLONE 0 1")
+		g.emit("GETX 1 %s", get)
+		// independent RFC encoder -> library getter (the two BUILD lines must produce identical raw bytes)
+		if rfc != "" {
+			g.emit("BUILD 2 %s+%s", hdr, rfc)
+			g.emit("GETX 2 %s", get)
+			g.emit("CLONE 2 3")
+			g.emit("GETX 3 %s", get)
+		}
+	}
+}
+
+func allZero(b []byte) bool {
+	for _, x := range b {
+		if x != 0 {
+			return false
+		}
+	}
+	return true
+}
+
+var getterKinds = []string{"xor 32", "xor 18", "map 1", "map 32803", "map 32811", "map 32812", "user", "realm", "nonce", "soft", "ec", "ua"}
+var getterTypes = []int{0x0020, 0x0012, 0x0001, 0x8023, 0x802b, 0x802c, 0x0006, 0x0014, 0x0015, 0x8022, 0x0009, 0x000A}
+
+// C07: every getter/checker x value length 0..40 x position x capacity x surroundings
+func (g *gen) attrsMalformed(n int) {
+	cnt := 0
+	for rep := 0; rep < n; rep++ {
+		for gi, gk := range getterKinds {
+			for l := 0; l <= 40; l++ {
+				g.caseMark("attrs-malformed", cnt)
+				cnt++
+				val := g.r.bytes(l)
+				if l >= 2 && g.r.chance(2, 3) { // plausible family so that later checks are reached
+					val[0], val[1] = 0, byte(1+g.r.intn(2))
+				}
+				if l <= 5 { // short values: every position x capacity combination
+					for pos := 0; pos < 3; pos++ {
+						for _, extra := range []int{0, 1, 64} {
+							g.caseMark("attrs-malformed", cnt)
+							cnt++
+							g.malformedCaseAt(getterTypes[gi], val, "GETX %d "+gk, pos, extra)
+						}
+					}
+				}
+				g.malformedCase(getterTypes[gi], val, "GETX %d "+gk)
+			}
+		}
+		// checkers: MESSAGE-INTEGRITY and FINGERPRINT attributes of every length
+		for l := 0; l <= 40; l++ {
+			g.caseMark("attrs-malformed", cnt)
+			cnt++
+			g.malformedCase(0x0008, g.r.bytes(l), "CHECK %d mi "+showHex(g.r.bytes(g.r.intn(80))))
+			g.caseMark("attrs-malformed", cnt)
+			cnt++
+			g.malformedCase(0x8028, g.r.bytes(l), "CHECK %d fp")
+		}
+	}
+}
+
+// the attribute under test at first / middle / last position, in buffers of exact and larger capacity with
+// zero / 0xFF / random surroundings; twin messages differing only outside the value must give the same answer
+func (g *gen) malformedCase(typ int, val []byte, op string) {
+	g.malformedCaseAt(typ, val, op, g.r.intn(3), -1)
+}
+
+func (g *gen) malformedCaseAt(typ int, val []byte, op string, pos, fixedExtra int) {
+	mk := func(fill int) []wattr {
+		var as []wattr
+		other := func() wattr {
+			l := g.r.intn(7)
+			v := make([]byte, l)
+			p := make([]byte, pad4(l))
+			for i := range v {
+				v[i] = byte(fill)
+			}
+			for i := range p {
+				p[i] = byte(fill)
+			}
+			if fill < 0 {
+				v, p = g.r.bytes(l), g.r.bytes(pad4(l))
+			}
+			return wattr{typ: 0x7777, val: v, pad: p}
+		}
+		p := make([]byte, pad4(len(val)))
+		for i := range p {
+			p[i] = byte(fill)
+		}
+		if fill < 0 {
+			p = g.r.bytes(len(p))
+		}
+		me := wattr{typ: typ, val: val, pad: p}
+		switch pos {
+		case 0:
+			as = []wattr{me, other()}
+		case 1:
+			as = []wattr{other(), me, other()}
+		default:
+			as = []wattr{other(), me}
+		}
+		return as
+	}
+	tid := g.r.bytes(12)
+	for slot, fill := range []int{0, 0xFF, -1} {
+		b := wire(uint16(g.r.intn(0x3FFF)), tid, mk(fill))
+		extra := []int{0, 0, 1, 2, 19, 20, 64}[g.r.intn(7)]
+		if fixedExtra >= 0 {
+			extra = fixedExtra
+		}
+		g.emit("RAWDEC %d %d %d %s", slot, extra, g.r.intn(256), showHex(b))
+		g.emit(op, slot)
+		g.emit("DUMP %d", slot)
+	}
+}
